@@ -21,7 +21,8 @@ RULE = (
     "in a plain Dfg.add; untracked index in a TrackedDfg; serializing with an incomplete op; the HUGR's root node used "
     "as a wire; a constant of one basic block used as a value in another block) at a generated position "
     "and depth. Oracle: execution must raise at or after the injected step and before to_json returns, with the "
-    "documented class where one is documented; the un-injected twin must build and serialize. Non-trivial = injection "
+    "documented class where one is documented, and must not be suppressed by leaving the `with` block of any enclosing "
+    "builder (every builder is a context manager); the un-injected twin must build and serialize. Non-trivial = injection "
     "at nesting depth >= 1 or after >= 3 events; distinct by canonical JSON."
 )
 ASSUMPTIONS = ["negative case / tracked indices follow Python indexing and are not generated"]
@@ -570,8 +571,13 @@ def check(case) -> list[Fail]:
         r.hugr.to_json()
     except Exception as e:  # noqa: BLE001
         raise InvalidCase("twin does not serialize") from e
+    seen = {}
+
+    def watch(idx, ev, res):
+        seen["res"] = res
+
     try:
-        exc, at = run_injected(p2)
+        exc, at = run_injected(p2, watch)
     except (_Accepted, _AcceptedSilently):
         return [Fail("silently-accepted", kind, f"injection at event {pos} was accepted")]
     except InvalidCase:
@@ -587,6 +593,23 @@ def check(case) -> list[Fail]:
         if not entered:
             raise InvalidCase(f"harness exception {exc!r}")
         return [Fail("wrong-error", f"{kind}:{type(exc).__name__}", f"expected {[c.__name__ for c in expected(kind)]}, got {type(exc).__name__}: {exc}"[:300])]
+    # every builder is a context manager: the error must also leave the `with` blocks of the builders that
+    # enclose the offending call (an __exit__ returning a true value would swallow it)
+    if isinstance(at, int) and "res" in seen and at < len(p2["events"]):
+        R2, _ = structure(p2)
+        ev = p2["events"][at]
+        r = ev.get("r", ev.get("c", ev.get("m")))
+        chain = ([r] + list(ancestors(R2, r))) if r in R2 else []
+        for rid in chain:
+            b = seen["res"].builders.get(rid)
+            if b is None or not hasattr(b, "__exit__"):
+                continue
+            try:
+                swallowed = b.__exit__(type(exc), exc, exc.__traceback__)
+            except Exception:  # noqa: BLE001 - raising another error is still refusing
+                swallowed = False
+            if swallowed:
+                return [Fail("silently-accepted", f"{kind}:swallowed-by-{type(b).__name__}.__exit__", f"injection at event {pos}: {type(exc).__name__} raised, but leaving the enclosing `with` block suppresses it")]
     return []
 
 
